@@ -3,6 +3,7 @@ package c07
 import (
 	"encoding/hex"
 	"fmt"
+	"os"
 
 	"github.com/nspcc-dev/neo-go/pkg/core/transaction"
 	"github.com/nspcc-dev/neo-go/pkg/util"
@@ -104,7 +105,7 @@ var feeStates = []string{"preamble", "exec-min", "exec-frac", "policy-twice"}
 //	quick:    no attributes: second signer of every shape, third of 3 shapes (with a second of the same 3);
 //	          with attributes: second signer of 5 shapes; script lengths 1, 252, 253, 65535 for a single signer, 1 otherwise
 //	thorough: second signer of every shape, second x third of 5 x 5 shapes, all script lengths everywhere
-func (e *env) feePlan(first sigShape, mix attrMix) (combos [][]sigShape, lensOf func(cb []sigShape) []int) {
+func (e *env) feePlan(first sigShape, mix attrMix, st *state) (combos [][]sigShape, lensOf func(cb []sigShape) []int) {
 	all := sigShapes()
 	combos = append(combos, []sigShape{first})
 	one := func([]sigShape) []int { return []int{1} }
@@ -118,7 +119,7 @@ func (e *env) feePlan(first sigShape, mix attrMix) (combos [][]sigShape, lensOf 
 		}
 		return combos, one
 	}
-	if e.thor {
+	if e.thor && st.Expect == nil { // the added state keeps the quick plan in both tiers
 		for _, s := range all {
 			combos = append(combos, []sigShape{first, s})
 		}
@@ -193,7 +194,7 @@ func (e *env) runFee() map[string]any {
 			factors[j.st.Name] = rn.n.BC.GetBaseExecFee()
 			e.f.mu.Unlock()
 		}
-		combos, lensOf := e.feePlan(j.first, j.mix)
+		combos, lensOf := e.feePlan(j.first, j.mix, j.st)
 		for _, cb := range combos {
 			for _, l := range lensOf(cb) {
 				if e.r.Expired() {
@@ -274,6 +275,33 @@ func (rn *runner) feeCase(cb []sigShape, mix attrMix, scriptLen int) {
 		if !v.OK {
 			e.f.add(fmt.Sprintf("fee:exact-rejected:%s:%s:%s", shapeKey, rn.st.Name, path), rec(path, tx, "accepted", v))
 		}
+	}
+	// the calculators the property names must give the same number
+	if os.Getenv("C07_NOCALC") != "" {
+		// development aid: measure the cost of the comparisons
+	} else if got, err := rn.rpcFee(tx); err != nil {
+		e.out("fee-calculators", "rpc-error")
+		e.f.add(fmt.Sprintf("fee:rpc-calculatenetworkfee-failed:%s:%s", shapeKey, rn.st.Name), rec("rpc", tx, fmt.Sprint(calc), verdict{Err: err.Error()}))
+	} else {
+		e.count.rpcFee.Inc()
+		if got != calc {
+			e.out("fee-calculators", "rpc-differs")
+			e.f.add(fmt.Sprintf("fee:rpc-calculatenetworkfee-differs:%s:%s", shapeKey, rn.st.Name), rec("rpc", tx, fmt.Sprintf("threshold %d", calc), verdict{Err: fmt.Sprintf("calculatenetworkfee says %d", got)}))
+		} else {
+			e.out("fee-calculators", "rpc-equal")
+		}
+	}
+	if os.Getenv("C07_NOCALC") != "" {
+	} else if got, ok := neotestFee(n, tx, signers); ok {
+		e.count.ntFee.Inc()
+		if got != calc {
+			e.out("fee-calculators", "neotest-differs")
+			e.f.add(fmt.Sprintf("fee:neotest-addnetworkfee-differs:%s:%s", shapeKey, rn.st.Name), rec("neotest", tx, fmt.Sprintf("threshold %d", calc), verdict{Err: fmt.Sprintf("AddNetworkFee says %d", got)}))
+		} else {
+			e.out("fee-calculators", "neotest-equal")
+		}
+	} else {
+		e.out("fee-calculators", "neotest-not-applicable")
 	}
 	// one unit less: rejected (structure -> VerifyTx, and wire bytes -> PoolTx);
 	// the attribute fee (taken from the Policy getter) not paid at all: rejected
